@@ -1,4 +1,1108 @@
+//! C16 — "Schedule strings round-trip exactly and malformed strings are rejected".
+//!
+//! Engine E5 (bounded-exhaustive codec enumerator) for
+//! `shuttle_engine::scheduler::serialization::{serialize_schedule, deserialize_schedule}`.
+//!
+//!   check C16 quick|thorough     parent: shards the families over worker processes, aggregates
+//!   check C16 --replay <file>    re-executes one recorded case in a child, prints the observation
+//!   worker ...                   (hidden) enumerates one shard of one family, in-process decoding
+//!   one                          (hidden) judges the single case given as JSON on stdin
+//!
+//! Workers decode under `catch_unwind` with a silent panic hook.  What `catch_unwind` cannot contain
+//! (allocation failure => abort, a hang) is contained by the process boundary: each worker keeps
+//! "the case I am decoding" and its counters in a file-backed shared array (shm.rs); when a worker
+//! dies or stalls the parent re-creates exactly that input from (family, item, case), reports it as
+//! a finding and restarts the shard right after it.  Workers run with RLIMIT_AS = 2 GiB so that
+//! "does a 2^27-element pre-allocation succeed" does not depend on the machine.
+
+mod eval;
+mod gen;
+mod refdec;
+mod shm;
+
+use eval::{judge, observe, Case, Kind, Obs, Outcome};
+use gen::{run_family, Family, Sink};
+use refdec::Class;
+use serde_json::{json, Map, Value};
+use shuttle_engine::scheduler::Schedule;
+use std::collections::{BTreeMap, HashMap, VecDeque};
+use std::io::{Read, Write};
+use std::os::unix::process::ExitStatusExt;
+use std::process::{Command, Stdio};
+use std::sync::{Arc, Mutex};
+use std::time::{Duration, Instant};
+use vx::common::{CheckCtx, CheckResult, Tier};
+
+// ---- shared slots ---------------------------------------------------------------------------
+const S_ITEM: usize = 0;
+const S_SUB: usize = 1;
+const S_PHASE: usize = 2; // 0 = worker's own code, 1 = inside serialize_schedule, 2 = inside deserialize_schedule
+const S_ITEMS_DONE: usize = 3;
+const S_ENCODES: usize = 4;
+const S_MULTILINE: usize = 5;
+const S_EXACT76: usize = 6;
+const S_MAXLINES: usize = 7;
+const S_FINDINGS: usize = 8;
+const S_MACH: usize = 9;
+const S_PAD_ONLY: usize = 10;
+const S_PAD_ONLY_SOME: usize = 11;
+const S_NONTRIVIAL: usize = 12;
+const S_DEATHS: usize = 13;
+const S_KIND: usize = 16; // Kind::COUNT * 6: decodes, none, some_expected, some_other, panic, violations
+const S_REF: usize = 96; // 8 reference classes * 2: decodes, none
+const S_KEYTAB: usize = 112; // KEY_ENTRIES * 2: key hash, violations counted under that key
+const KEY_ENTRIES: usize = 24;
+const SLOTS: usize = 160;
+
+const AS_LIMIT: u64 = 2 << 30;
+const STALL: Duration = Duration::from_secs(30);
+const MAX_DEATHS_PER_SHARD: u64 = 5000;
+const EMIT_PER_KEY: u64 = 6;
+
+fn limit_address_space() {
+    let lim = libc::rlimit { rlim_cur: AS_LIMIT, rlim_max: AS_LIMIT };
+    let nocore = libc::rlimit { rlim_cur: 0, rlim_max: 0 };
+    unsafe {
+        libc::setrlimit(libc::RLIMIT_AS, &lim);
+        libc::setrlimit(libc::RLIMIT_CORE, &nocore);
+    }
+}
+
+// ---- worker ---------------------------------------------------------------------------------
+// A worker process is a *supervisor* that forks the enumerating child.  The shared array survives the
+// child, so when the decoder kills the child (allocation failure => abort) the supervisor knows the
+// exact case, re-creates the input with the same generator, prints the finding and forks a new child
+// that resumes right after that case.  fork() instead of exec keeps a death at ~1 ms.
+
+/// Per-key violation counts live in the shared array too (a table of (hash, count) pairs), so they
+/// survive the death of the child that counted them.
+fn key_hash(key: &str) -> u64 {
+    let mut h: u64 = 0xcbf29ce484222325;
+    for b in key.bytes() {
+        h ^= b as u64;
+        h = h.wrapping_mul(0x100000001b3);
+    }
+    h | 2 // never 0 (= free entry) or 1 (= overflow entry)
+}
+
+/// Count one violation under `key`; returns (count so far, true if this call created the entry).
+fn key_count(shm: &shm::Shm, key: &str) -> (u64, bool) {
+    let h = key_hash(key);
+    for e in 0..KEY_ENTRIES {
+        let slot = S_KEYTAB + 2 * e;
+        let cur = shm.get(slot);
+        if cur == h {
+            shm.add(slot + 1, 1);
+            return (shm.get(slot + 1), false);
+        }
+        if cur == 0 {
+            if e == KEY_ENTRIES - 1 {
+                shm.set(slot, 1); // overflow entry: "(further keys)"
+                shm.add(slot + 1, 1);
+                return (shm.get(slot + 1), false);
+            }
+            shm.set(slot, h);
+            shm.set(slot + 1, 1);
+            return (1, true);
+        }
+        if cur == 1 {
+            shm.add(slot + 1, 1);
+            return (shm.get(slot + 1), false);
+        }
+    }
+    (u64::MAX, false)
+}
+
+fn announce_key(out: &mut std::io::Stdout, key: &str) {
+    let _ = writeln!(out, "{}", json!({"t": "key", "key": key, "hash": key_hash(key).to_string()}));
+}
+
+struct WorkerSink {
+    shard: u64,
+    nshards: u64,
+    start: (u64, u64),
+    next_idx: u64,
+    cur: u64,
+    sub: u64,
+    active: bool,
+    fresh: bool,
+    shm: shm::Shm,
+    out: std::io::Stdout,
+    family: Family,
+    hashes: Vec<u64>,
+    hash_path: String,
+    sampled: [u8; Kind::COUNT],
+    sampled_pad: bool,
+}
+
+impl WorkerSink {
+    /// `what` is built only for the first few cases of a key
+    fn emit_finding(&mut self, key: &str, sub: u64, case: &Case, what: &dyn Fn() -> String) {
+        self.shm.add(S_FINDINGS, 1);
+        let (n, created) = key_count(&self.shm, key);
+        if created {
+            announce_key(&mut self.out, key);
+        }
+        if n <= EMIT_PER_KEY {
+            let line = json!({"t": "finding", "key": key, "what": what(),
+                "replay": {"family": self.family.name(), "item": self.cur, "sub": sub, "case": case.to_json()}});
+            let _ = writeln!(self.out, "{}", line);
+            let _ = self.out.flush();
+        }
+    }
+    fn flush_hashes(&mut self) {
+        if self.hashes.is_empty() {
+            return;
+        }
+        if let Ok(mut f) = std::fs::OpenOptions::new().create(true).append(true).open(&self.hash_path) {
+            let mut b = Vec::with_capacity(self.hashes.len() * 8);
+            for h in &self.hashes {
+                b.extend_from_slice(&h.to_le_bytes());
+            }
+            let _ = f.write_all(&b);
+        }
+        self.hashes.clear();
+    }
+    fn sample(&mut self, tag: &str, case: &Case, obs: &Obs, refd: &str) {
+        let shown: String = case.input.chars().take(200).collect();
+        let line = json!({"t": "sample", "tag": tag, "kind": case.kind.name(), "label": case.label,
+            "input": shown, "input_chars": case.input.chars().count(),
+            "reference": refd, "observed": obs.describe()});
+        let _ = writeln!(self.out, "{}", line);
+    }
+}
+
+impl Sink for WorkerSink {
+    fn begin(&mut self) -> bool {
+        self.cur = self.next_idx;
+        self.next_idx += 1;
+        self.sub = 0;
+        self.active = self.cur % self.nshards == self.shard && self.cur >= self.start.0;
+        self.fresh = !(self.cur == self.start.0 && self.start.1 > 0);
+        self.active
+    }
+    fn end(&mut self) {
+        if self.active {
+            self.shm.add(S_ITEMS_DONE, 1);
+            self.active = false;
+        }
+    }
+    fn encode(&mut self, s: &Schedule) -> Option<String> {
+        self.shm.set(S_ITEM, self.cur);
+        self.shm.set(S_SUB, 0);
+        self.shm.set(S_PHASE, 1);
+        let r = eval::encode(s);
+        self.shm.set(S_PHASE, 0);
+        match r {
+            Ok(p) => Some(p),
+            Err(Obs::Panic { msg, file, line }) => {
+                if self.fresh {
+                    let key = format!("encode-panic/{}", eval::panic_site(&msg, &file, line));
+                    let c = Case { kind: Kind::Strict, label: "encode", input: String::new(), expect: eval::Expect::Exactly(s.clone()) };
+                    self.emit_finding(&key, 0, &c, &|| {
+                        format!("serialize_schedule({}) panicked: '{}' at {}:{}", gen::sched_brief(s), msg, file, line)
+                    });
+                }
+                None
+            }
+            Err(_) => None,
+        }
+    }
+    fn note_roundtrip(&mut self, s: &Schedule, printed: &str) {
+        if !self.fresh {
+            return;
+        }
+        self.shm.add(S_ENCODES, 1);
+        let lines = printed.split('\n').count() as u64;
+        if lines > 1 {
+            self.shm.add(S_MULTILINE, 1);
+        }
+        if lines > self.shm.get(S_MAXLINES) {
+            self.shm.set(S_MAXLINES, lines);
+        }
+        let digits = printed.len() as u64 - (lines - 1);
+        if digits % 76 == 0 {
+            self.shm.add(S_EXACT76, 1);
+        }
+        if gen::nontrivial(s, printed) {
+            self.shm.add(S_NONTRIVIAL, 1);
+            self.hashes.push(gen::hash_sched(s));
+            if self.hashes.len() >= 1 << 16 {
+                self.flush_hashes();
+            }
+        }
+    }
+    fn case(&mut self, c: Case) -> Option<Outcome> {
+        let sub = self.sub;
+        self.sub += 1;
+        if self.cur == self.start.0 && sub < self.start.1 {
+            return None;
+        }
+        self.shm.set(S_ITEM, self.cur);
+        self.shm.set(S_SUB, sub);
+        self.shm.set(S_PHASE, 2);
+        let obs = observe(&c.input);
+        self.shm.set(S_PHASE, 0);
+        let j = judge(&c, &obs, false);
+        let k = S_KIND + (c.kind as usize) * 6;
+        self.shm.add(k, 1);
+        self.shm.add(
+            k + match j.outcome {
+                Outcome::None => 1,
+                Outcome::SomeExpected => 2,
+                Outcome::SomeOther => 3,
+                Outcome::Panic => 4,
+            },
+            1,
+        );
+        let ri = eval::ref_index(&j.refr);
+        self.shm.add(S_REF + ri * 2, 1);
+        if j.outcome == Outcome::None {
+            self.shm.add(S_REF + ri * 2 + 1, 1);
+        }
+        if let Some(d) = &j.drift {
+            self.machinery(format!("format drift: {}", d));
+        }
+        if self.sampled[c.kind as usize] < 1 && (c.kind != Kind::Strict || c.input.contains('\n')) {
+            self.sampled[c.kind as usize] += 1;
+            self.sample("first-of-kind", &c, &obs, &j.refr.describe());
+        }
+        if let Some((key, _)) = &j.violation {
+            self.shm.add(k + 5, 1);
+            self.emit_finding(key, sub, &c, &|| judge(&c, &obs, true).violation.map(|v| v.1).unwrap_or_default());
+        }
+        if c.kind == Kind::Prefix && !self.sampled_pad && j.outcome == Outcome::SomeExpected {
+            self.sampled_pad = true;
+            self.sample("padding-only-truncation", &c, &obs, &j.refr.describe());
+        }
+        Some(j.outcome)
+    }
+    fn note_padding_only(&mut self, decoded_same: bool) {
+        self.shm.add(S_PAD_ONLY, 1);
+        if decoded_same {
+            self.shm.add(S_PAD_ONLY_SOME, 1);
+        }
+    }
+    fn machinery(&mut self, msg: String) {
+        self.shm.add(S_MACH, 1);
+        if self.shm.get(S_MACH) <= 5 {
+            let _ = writeln!(self.out, "{}", json!({"t": "machinery", "msg": msg}));
+        }
+    }
+    fn evaluating(&self) -> bool {
+        true
+    }
+}
+
+fn read_from(path: &str, offset: u64) -> String {
+    use std::io::{Seek, SeekFrom};
+    let mut s = String::new();
+    if let Ok(mut f) = std::fs::File::open(path) {
+        let _ = f.seek(SeekFrom::Start(offset));
+        let _ = f.read_to_string(&mut s);
+    }
+    s
+}
+
+/// Description of a death inside the codec, shared by the supervisor (child died) and the parent
+/// (child hung and was killed).  Returns (key, what, replay).
+fn death_finding(family: Family, tier: Tier, item: u64, sub: u64, phase: u64, how: &str, key_tail: &str, stderr: &str) -> Option<(String, String, Value)> {
+    let err_line = stderr
+        .lines()
+        .find(|l| l.contains("memory allocation of"))
+        .or(stderr.lines().next())
+        .unwrap_or("")
+        .to_string();
+    if phase == 2 {
+        let (case, _) = capture_case(family, tier, item, sub, true);
+        let c = case?;
+        Some((
+            format!("decode-{}", key_tail),
+            format!(
+                "deserialize_schedule(\"{}\") took the process down ({}; stderr: {}) — input class {}, reference reading {} (address space limited to 2 GiB)",
+                c.input.escape_default().take(120).collect::<String>(),
+                how,
+                err_line,
+                c.kind.name(),
+                refdec::ref_decode(&c.input).describe()
+            ),
+            json!({"family": family.name(), "item": item, "sub": sub, "case": c.to_json()}),
+        ))
+    } else {
+        // do not run the encoder again here: it is what killed the child
+        let (_, sched) = capture_case(family, tier, item, 0, false);
+        let s = sched?;
+        let c = Case { kind: Kind::Strict, label: "encode", input: String::new(), expect: eval::Expect::Exactly(s.clone()) };
+        Some((
+            format!("encode-{}", key_tail),
+            format!("serialize_schedule({}) took the process down ({}; stderr: {})", gen::sched_brief(&s), how, err_line),
+            json!({"family": family.name(), "item": item, "sub": 0, "case": c.to_json()}),
+        ))
+    }
+}
+
+fn worker_main(a: &[String]) -> ! {
+    // worker <tier> <family> <shard> <nshards> <start_item> <start_sub> <shm> <hashfile> <stderr file>
+    if a.len() < 9 {
+        eprintln!("worker: bad arguments");
+        std::process::exit(3);
+    }
+    let tier = if a[0] == "thorough" { Tier::Thorough } else { Tier::Quick };
+    let family = Family::from_name(&a[1]).unwrap_or_else(|| std::process::exit(3));
+    let num = |s: &String| s.parse::<u64>().unwrap_or_else(|_| std::process::exit(3));
+    let (shard, nshards) = (num(&a[2]), num(&a[3]).max(1));
+    let mut start = (num(&a[4]), num(&a[5]));
+    let sup = match shm::Shm::open(&a[6], SLOTS) {
+        Ok(s) => s,
+        Err(e) => {
+            eprintln!("worker: {}", e);
+            std::process::exit(3)
+        }
+    };
+    let err_path = a[8].clone();
+    limit_address_space();
+    eval::install_quiet_hook();
+    let mut out = std::io::stdout();
+    loop {
+        let _ = out.flush();
+        let err_off = std::fs::metadata(&err_path).map(|m| m.len()).unwrap_or(0);
+        let pid = unsafe { libc::fork() };
+        if pid < 0 {
+            eprintln!("worker: fork failed");
+            std::process::exit(3);
+        }
+        if pid == 0 {
+            // ---- enumerating child
+            let shm = match shm::Shm::open(&a[6], SLOTS) {
+                Ok(s) => s,
+                Err(_) => std::process::exit(3),
+            };
+            let mut sink = WorkerSink {
+                shard,
+                nshards,
+                start,
+                next_idx: 0,
+                cur: 0,
+                sub: 0,
+                active: false,
+                fresh: true,
+                shm,
+                out: std::io::stdout(),
+                family,
+                hashes: Vec::new(),
+                hash_path: a[7].clone(),
+                sampled: [if start == (0, 0) { 0 } else { 1 }; Kind::COUNT],
+                sampled_pad: start != (0, 0),
+            };
+            run_family(family, tier, &mut sink);
+            sink.flush_hashes();
+            let _ = writeln!(sink.out, "{}", json!({"t": "done", "items_total": sink.next_idx}));
+            let _ = sink.out.flush();
+            std::process::exit(0);
+        }
+        let mut status: libc::c_int = 0;
+        let w = unsafe { libc::waitpid(pid, &mut status, 0) };
+        if w != pid {
+            eprintln!("worker: waitpid failed");
+            std::process::exit(3);
+        }
+        if libc::WIFEXITED(status) && libc::WEXITSTATUS(status) == 0 {
+            std::process::exit(0);
+        }
+        // ---- the child died.  Only a death inside the code under test is a verdict.
+        let phase = sup.get(S_PHASE);
+        let (item, sub) = (sup.get(S_ITEM), sup.get(S_SUB));
+        let errs = read_from(&err_path, err_off);
+        let how = if libc::WIFSIGNALED(status) {
+            format!("signal {}", libc::WTERMSIG(status))
+        } else {
+            format!("exit code {}", libc::WEXITSTATUS(status))
+        };
+        if phase != 1 && phase != 2 {
+            let _ = writeln!(
+                out,
+                "{}",
+                json!({"t": "machinery", "msg": format!("enumerating child of {}/{} died ({}) outside the code under test near item {}: {}",
+                    family.name(), shard, how, item, errs.lines().take(2).collect::<Vec<_>>().join(" | "))})
+            );
+            let _ = out.flush();
+            std::process::exit(4);
+        }
+        sup.set(S_PHASE, 0);
+        let key_tail = if libc::WIFSIGNALED(status) && libc::WTERMSIG(status) == libc::SIGABRT {
+            if errs.contains("memory allocation of") {
+                "abort/alloc-failure".to_string()
+            } else {
+                "abort/other".to_string()
+            }
+        } else if libc::WIFSIGNALED(status) {
+            format!("crash/signal-{}", libc::WTERMSIG(status))
+        } else {
+            format!("crash/exit-{}", libc::WEXITSTATUS(status))
+        };
+        match death_finding(family, tier, item, sub, phase, &how, &key_tail, &errs) {
+            Some((key, what, replay)) => {
+                sup.add(S_DEATHS, 1);
+                let (n, created) = key_count(&sup, &key);
+                if created {
+                    announce_key(&mut out, &key);
+                }
+                if n <= EMIT_PER_KEY {
+                    let _ = writeln!(out, "{}", json!({"t": "finding", "key": key, "what": what, "replay": replay}));
+                }
+            }
+            None => {
+                let _ = writeln!(
+                    out,
+                    "{}",
+                    json!({"t": "machinery", "msg": format!("cannot re-create case {}/{}/{} after a death", family.name(), item, sub)})
+                );
+                let _ = out.flush();
+                std::process::exit(4);
+            }
+        }
+        if sup.get(S_DEATHS) >= MAX_DEATHS_PER_SHARD {
+            let _ = writeln!(out, "{}", json!({"t": "cap", "msg": format!("{} deaths inside the codec in {}/{}: shard abandoned at item {}", sup.get(S_DEATHS), family.name(), shard, item)}));
+            let _ = out.flush();
+            std::process::exit(5);
+        }
+        start = if phase == 2 {
+            (item, sub + 1)
+        } else {
+            sup.add(S_ITEMS_DONE, 1); // the item whose encoding killed the child is finished
+            (item + 1, 0)
+        };
+    }
+}
+
+// ---- re-creating one case from its coordinates ------------------------------------------------
+struct CaptureSink {
+    item: u64,
+    sub: u64,
+    next_idx: u64,
+    cur_sub: u64,
+    active: bool,
+    out: Option<Case>,
+    sched: Option<Schedule>,
+    run_encoder: bool,
+}
+impl Sink for CaptureSink {
+    fn begin(&mut self) -> bool {
+        self.active = self.next_idx == self.item;
+        self.next_idx += 1;
+        self.cur_sub = 0;
+        self.active
+    }
+    fn end(&mut self) {
+        self.active = false;
+    }
+    fn encode(&mut self, s: &Schedule) -> Option<String> {
+        self.sched = Some(s.clone());
+        if self.run_encoder {
+            eval::encode(s).ok()
+        } else {
+            None
+        }
+    }
+    fn note_roundtrip(&mut self, _: &Schedule, _: &str) {}
+    fn case(&mut self, c: Case) -> Option<Outcome> {
+        if self.active && self.cur_sub == self.sub {
+            self.out = Some(c);
+        }
+        self.cur_sub += 1;
+        None
+    }
+    fn note_padding_only(&mut self, _: bool) {}
+    fn machinery(&mut self, _: String) {}
+    fn evaluating(&self) -> bool {
+        false
+    }
+}
+
+fn capture_case(f: Family, tier: Tier, item: u64, sub: u64, run_encoder: bool) -> (Option<Case>, Option<Schedule>) {
+    let mut s = CaptureSink { item, sub, next_idx: 0, cur_sub: 0, active: false, out: None, sched: None, run_encoder };
+    run_family(f, tier, &mut s);
+    (s.out, s.sched)
+}
+
+// ---- parent -----------------------------------------------------------------------------------
+#[derive(Clone)]
+struct FindingRec {
+    key: String,
+    what: String,
+    replay: Value,
+    input_len: usize,
+}
+
+struct JobResult {
+    family: Family,
+    shard: u64,
+    slots: Vec<u64>,
+    findings: Vec<FindingRec>,
+    key_names: HashMap<u64, String>,
+    key_counts: BTreeMap<String, u64>,
+    samples: Vec<Value>,
+    machinery: Vec<String>,
+    completed: bool,
+    cap: Option<String>,
+    items_total: u64,
+    hash_path: String,
+    wall_s: f64,
+}
+
+fn kill_group(pid: u32) {
+    unsafe {
+        libc::kill(-(pid as i32), libc::SIGKILL);
+    }
+}
+
+fn run_job(exe: &std::path::Path, scratch: &str, tier: Tier, family: Family, shard: u64, nshards: u64, deadline: Instant) -> JobResult {
+    use std::os::unix::process::CommandExt;
+    let base = format!("{}/{}-{}", scratch, family.name(), shard);
+    let shm_path = format!("{}.shm", base);
+    let err_path = format!("{}.err", base);
+    let hash_path = format!("{}.hashes", base);
+    let _ = std::fs::write(&shm_path, vec![0u8; SLOTS * 8]);
+    let mut r = JobResult {
+        family,
+        shard,
+        slots: vec![0; SLOTS],
+        findings: vec![],
+        key_names: HashMap::new(),
+        key_counts: BTreeMap::new(),
+        samples: vec![],
+        machinery: vec![],
+        completed: false,
+        cap: None,
+        items_total: 0,
+        hash_path: hash_path.clone(),
+        wall_s: 0.0,
+    };
+    let t0 = Instant::now();
+    let mut start = (0u64, 0u64);
+    let mut hangs = 0u64;
+    loop {
+        let errf = match std::fs::File::create(&err_path) {
+            Ok(f) => f,
+            Err(e) => {
+                r.machinery.push(format!("cannot create {}: {}", err_path, e));
+                break;
+            }
+        };
+        let child = Command::new(exe)
+            .arg("worker")
+            .arg(tier.name())
+            .arg(family.name())
+            .arg(shard.to_string())
+            .arg(nshards.to_string())
+            .arg(start.0.to_string())
+            .arg(start.1.to_string())
+            .arg(&shm_path)
+            .arg(&hash_path)
+            .arg(&err_path)
+            .env("RUST_BACKTRACE", "0")
+            .process_group(0)
+            .stdin(Stdio::null())
+            .stdout(Stdio::piped())
+            .stderr(Stdio::from(errf))
+            .spawn();
+        let mut child = match child {
+            Ok(c) => c,
+            Err(e) => {
+                r.machinery.push(format!("cannot spawn worker {}/{}: {}", family.name(), shard, e));
+                break;
+            }
+        };
+        let mut so = child.stdout.take().unwrap();
+        let reader = std::thread::spawn(move || {
+            let mut s = String::new();
+            let _ = so.read_to_string(&mut s);
+            s
+        });
+        // wait, watching for a stalled call into the codec and for the wall cap
+        let mut last = (u64::MAX, u64::MAX, 0u64);
+        let mut last_change = Instant::now();
+        let mut killed: Option<&'static str> = None;
+        let mut polls = 0u32;
+        let status = loop {
+            match child.try_wait() {
+                Ok(Some(st)) => break Some(st),
+                Ok(None) => {}
+                Err(_) => break None,
+            }
+            polls += 1;
+            std::thread::sleep(Duration::from_millis(if polls < 100 { 2 } else { 25 }));
+            if polls % 8 != 0 {
+                continue;
+            }
+            let sl = shm::read_slots(&shm_path, SLOTS);
+            let decodes: u64 = (0..Kind::COUNT).map(|k| sl[S_KIND + k * 6]).sum();
+            let now = (sl[S_ITEM], sl[S_SUB], decodes + sl[S_ENCODES] + sl[S_DEATHS]);
+            if now != last {
+                last = now;
+                last_change = Instant::now();
+            } else if sl[S_PHASE] != 0 && last_change.elapsed() > STALL {
+                killed = Some("stall");
+                kill_group(child.id());
+                break child.wait().ok();
+            }
+            if Instant::now() > deadline {
+                killed = Some("wall-cap");
+                kill_group(child.id());
+                break child.wait().ok();
+            }
+        };
+        kill_group(child.id()); // nothing of the group may outlive its supervisor
+        let out = reader.join().unwrap_or_default();
+        let mut done = false;
+        for line in out.lines() {
+            let v: Value = match serde_json::from_str(line) {
+                Ok(v) => v,
+                Err(_) => {
+                    r.machinery.push(format!("worker {}/{} printed an unparsable line: {}", family.name(), shard, line));
+                    continue;
+                }
+            };
+            match v["t"].as_str() {
+                Some("finding") => {
+                    let input_len = v["replay"]["case"]["input"].as_str().map(|s| s.len()).unwrap_or(0);
+                    r.findings.push(FindingRec {
+                        key: v["key"].as_str().unwrap_or("?").to_string(),
+                        what: v["what"].as_str().unwrap_or("?").to_string(),
+                        replay: v["replay"].clone(),
+                        input_len,
+                    });
+                }
+                Some("key") => {
+                    if let Some(h) = v["hash"].as_str().and_then(|s| s.parse::<u64>().ok()) {
+                        r.key_names.insert(h, v["key"].as_str().unwrap_or("?").to_string());
+                    }
+                }
+                Some("sample") => r.samples.push(v.clone()),
+                Some("machinery") => r.machinery.push(v["msg"].as_str().unwrap_or("?").to_string()),
+                Some("cap") => r.cap = Some(v["msg"].as_str().unwrap_or("?").to_string()),
+                Some("done") => {
+                    done = true;
+                    r.items_total = v["items_total"].as_u64().unwrap_or(0);
+                }
+                _ => {}
+            }
+        }
+        let sl = shm::read_slots(&shm_path, SLOTS);
+        if killed == Some("wall-cap") {
+            r.cap = Some(format!("wall cap hit in {}/{} at item {}", family.name(), shard, sl[S_ITEM]));
+            break;
+        }
+        if killed == Some("stall") {
+            // a call into the codec that made no progress for 30 s: a verdict about that input
+            let (item, sub, phase) = (sl[S_ITEM], sl[S_SUB], sl[S_PHASE]);
+            match death_finding(family, tier, item, sub, phase, "no progress for 30 s, killed", "hang/no-progress-30s", "") {
+                Some((key, what, replay)) => {
+                    *r.key_counts.entry(key.clone()).or_insert(0) += 1;
+                    let input_len = replay["case"]["input"].as_str().map(|s| s.len()).unwrap_or(0);
+                    r.findings.push(FindingRec { key, what, replay, input_len });
+                }
+                None => {
+                    r.machinery.push(format!("cannot re-create case {}/{}/{} after a hang", family.name(), item, sub));
+                    break;
+                }
+            }
+            hangs += 1;
+            if hangs >= 5 {
+                r.cap = Some(format!("{} hangs in {}/{}: shard abandoned at item {}", hangs, family.name(), shard, item));
+                break;
+            }
+            start = if phase == 2 { (item, sub + 1) } else { (item + 1, 0) };
+            continue;
+        }
+        match status {
+            Some(st) if st.success() && done => r.completed = true,
+            Some(st) if st.code() == Some(5) && r.cap.is_some() => {}
+            Some(st) => {
+                if r.machinery.is_empty() {
+                    r.machinery.push(format!(
+                        "worker {}/{} ended abnormally ({:?}, signal {:?}) near item {}: {}",
+                        family.name(),
+                        shard,
+                        st.code(),
+                        st.signal(),
+                        sl[S_ITEM],
+                        read_from(&err_path, 0).lines().take(2).collect::<Vec<_>>().join(" | ")
+                    ));
+                }
+            }
+            None => r.machinery.push(format!("lost worker {}/{}", family.name(), shard)),
+        }
+        break;
+    }
+    r.slots = shm::read_slots(&shm_path, SLOTS);
+    for e in 0..KEY_ENTRIES {
+        let (h, n) = (r.slots[S_KEYTAB + 2 * e], r.slots[S_KEYTAB + 2 * e + 1]);
+        if h == 0 {
+            break;
+        }
+        let name = if h == 1 { "(further keys)".to_string() } else { r.key_names.get(&h).cloned().unwrap_or_else(|| format!("(key #{})", h)) };
+        *r.key_counts.entry(name).or_insert(0) += n;
+    }
+    r.wall_s = t0.elapsed().as_secs_f64();
+    r
+}
+
+fn check_main(id: &str, tier: Tier) -> ! {
+    let ctx = CheckCtx::new(id, tier);
+    let mut res = CheckResult::new("exploration");
+    eval::install_quiet_hook(); // the parent re-creates cases (calls the encoder) after worker deaths
+    let exe = match std::env::current_exe() {
+        Ok(e) => e,
+        Err(e) => {
+            res.machinery_errors.push(format!("current_exe: {}", e));
+            vx::common::finish(&ctx, res)
+        }
+    };
+    let scratch = format!("/tmp/vx-c16-{}", std::process::id());
+    let _ = std::fs::remove_dir_all(&scratch);
+    if let Err(e) = std::fs::create_dir_all(&scratch) {
+        res.machinery_errors.push(format!("cannot create {}: {}", scratch, e));
+        vx::common::finish(&ctx, res)
+    }
+    let wall_cap = if tier.is_thorough() { Duration::from_secs(22 * 60) } else { Duration::from_secs(40) };
+    let deadline = ctx.start + wall_cap;
+
+    let mut jobs: VecDeque<(Family, u64, u64)> = VecDeque::new();
+    for f in Family::ALL {
+        let n = f.shards(tier);
+        for i in 0..n {
+            // VERIF_SEED only rotates the order in which the shards of a family are started
+            jobs.push_back((f, (i + ctx.seed) % n, n));
+        }
+    }
+    let njobs = jobs.len();
+    let queue = Arc::new(Mutex::new(jobs));
+    let results: Arc<Mutex<Vec<JobResult>>> = Arc::new(Mutex::new(Vec::new()));
+    // the shards of the families in which the decoder kills workers mostly wait for process
+    // restarts, so run more shard supervisors than cores
+    let par = (std::thread::available_parallelism().map(|n| n.get()).unwrap_or(4) * 2).clamp(2, 32);
+    let mut threads = Vec::new();
+    for _ in 0..par {
+        let (queue, results, exe, scratch) = (queue.clone(), results.clone(), exe.clone(), scratch.clone());
+        threads.push(std::thread::spawn(move || loop {
+            let job = queue.lock().unwrap().pop_front();
+            match job {
+                Some((f, shard, n)) => {
+                    let r = run_job(&exe, &scratch, tier, f, shard, n, deadline);
+                    results.lock().unwrap().push(r);
+                }
+                None => break,
+            }
+        }));
+    }
+    for t in threads {
+        let _ = t.join();
+    }
+    let mut results = std::mem::take(&mut *results.lock().unwrap());
+    results.sort_by_key(|r| (Family::ALL.iter().position(|f| *f == r.family).unwrap_or(99), r.shard));
+    if results.len() != njobs {
+        res.machinery_errors.push(format!("{} of {} shard jobs reported", results.len(), njobs));
+    }
+
+    // ---- aggregate
+    let mut total = vec![0u64; SLOTS];
+    let mut fam_cov = Map::new();
+    let mut exhaustive = true;
+    let mut caps: Vec<String> = Vec::new();
+    let mut crashes = 0u64;
+    let mut all_findings: Vec<FindingRec> = Vec::new();
+    let mut key_counts: BTreeMap<String, u64> = BTreeMap::new();
+    let mut samples: Vec<Value> = Vec::new();
+    let mut hashes: Vec<u64> = Vec::new();
+    for f in Family::ALL {
+        let rs: Vec<&JobResult> = results.iter().filter(|r| r.family == f).collect();
+        let mut items_done = 0u64;
+        let mut decodes = 0u64;
+        let mut totals: Vec<u64> = Vec::new();
+        for r in &rs {
+            items_done += r.slots[S_ITEMS_DONE];
+            decodes += (0..Kind::COUNT).map(|k| r.slots[S_KIND + k * 6]).sum::<u64>();
+            if r.completed {
+                totals.push(r.items_total);
+            }
+        }
+        totals.dedup();
+        let complete = rs.iter().all(|r| r.completed);
+        if complete {
+            if totals.len() != 1 || totals[0] != items_done {
+                res.machinery_errors.push(format!(
+                    "family {}: shards disagree on the enumeration ({:?} items generated, {} evaluated)",
+                    f.name(),
+                    totals,
+                    items_done
+                ));
+            }
+        } else {
+            exhaustive = false;
+        }
+        fam_cov.insert(
+            f.name().into(),
+            json!({"items": items_done, "decodes": decodes, "shards": rs.len(), "complete": complete,
+                   "slowest_shard_wall_s": (rs.iter().map(|r| r.wall_s).fold(0.0, f64::max) * 10.0).round() / 10.0,
+                   "worker_deaths": rs.iter().map(|r| r.slots[S_DEATHS]).sum::<u64>()}),
+        );
+    }
+    for r in &results {
+        for i in 0..SLOTS {
+            if i == S_MAXLINES {
+                total[i] = total[i].max(r.slots[i]);
+            } else if i > S_PHASE {
+                total[i] += r.slots[i];
+            }
+        }
+        if let Some(c) = &r.cap {
+            caps.push(c.clone());
+            exhaustive = false;
+        }
+        crashes += r.slots[S_DEATHS];
+        all_findings.extend(r.findings.iter().cloned());
+        for (k, n) in &r.key_counts {
+            *key_counts.entry(k.clone()).or_insert(0) += n;
+        }
+        for m in &r.machinery {
+            if res.machinery_errors.len() < 10 {
+                res.machinery_errors.push(m.clone());
+            }
+        }
+        if let Ok(b) = std::fs::read(&r.hash_path) {
+            hashes.extend(b.chunks_exact(8).map(|c| u64::from_le_bytes(c.try_into().unwrap())));
+        }
+    }
+    if total[S_MACH] > 0 && res.machinery_errors.is_empty() {
+        res.machinery_errors.push(format!("{} machinery complaints from workers", total[S_MACH]));
+    }
+    hashes.sort_unstable();
+    hashes.dedup();
+    // samples: first of every kind, in a fixed order, then padding-only truncation
+    for tag in ["padding-only-truncation", "first-of-kind"] {
+        for k in [Kind::Strict, Kind::Prefix, Kind::LengthField, Kind::WidthField, Kind::HeaderSub, Kind::Magic, Kind::Fixed, Kind::Lenient] {
+            if let Some(s) = results.iter().flat_map(|r| r.samples.iter()).find(|s| s["tag"] == tag && s["kind"] == k.name()) {
+                samples.push(s.clone());
+            }
+        }
+    }
+    let evaluations: u64 = (0..Kind::COUNT).map(|k| total[S_KIND + k * 6]).sum();
+    let mut kinds = Map::new();
+    for k in Kind::ALL {
+        let b = S_KIND + (k as usize) * 6;
+        kinds.insert(
+            k.name().into(),
+            json!({"decodes": total[b], "none": total[b + 1], "some_expected": total[b + 2], "some_other": total[b + 3],
+                   "panic": total[b + 4], "violations": total[b + 5]}),
+        );
+    }
+    let mut refc = Map::new();
+    for i in 0..Class::COUNT + 2 {
+        refc.insert(
+            eval::ref_index_name(i).into(),
+            json!({"decodes": total[S_REF + 2 * i], "returned_none": total[S_REF + 2 * i + 1]}),
+        );
+    }
+    let b = gen::bounds(tier);
+    res.cov("evaluations", evaluations);
+    res.cov("distinct_nontrivial", hashes.len() as u64);
+    res.cov(
+        "rule",
+        "evaluations = calls of deserialize_schedule made by this run (each under catch_unwind in a worker process). \
+         distinct_nontrivial = distinct Schedule values (64-bit FNV of seed+steps, de-duplicated across all shards) that were \
+         encoded and strictly round-tripped and are non-trivial: >= 2 steps not all equal, or an encoding of >= 2 printed lines. \
+         Enumeration: families boundary (every varint-boundary seed x every bit-width-boundary task id x 7 step shapes), seq3 \
+         (ALL sequences over {Task(a),Task(b),Random} up to the length bound for 9 (a,b) pairs with pairwise distinct ids x 2 seeds), \
+         long (12 patterns x every length 0..=long_max x seeds, plus lengths 16383..16385), each schedule in its printed form and \
+         every re-formatting variant, every proper prefix per hex digit (all for encodings <= prefix_bound digits; head 32, tail 96 \
+         and the needed/padding frontier +-8 otherwise), single-digit deletions, non-hex substitutions, trailing bytes; hdrsub \
+         (every single-hex-digit substitution in every header byte of 189 base encodings), width (21 width fields x 5 lengths x 4 \
+         payload patterns x 24 payload sizes), length (44 length fields x 3 widths x 2 patterns x 5 payload sizes), magic (every \
+         first byte != 0x91 x 5 bodies), fixed (empty / whitespace-only / non-hex literals, every single ASCII character).",
+    );
+    res.cov("bounds", json!({"seq3_max_len": b.seq_len, "seq3_pairs": gen::seq_pairs().len(), "seq3_seeds": gen::seq_seeds().len(),
+        "long_max_len": b.long_max, "long_patterns": gen::LONG_PATTERNS, "prefix_bound_hex_digits": b.prefix_bound,
+        "seeds": gen::seeds_all().len(), "task_ids": gen::ids_all().len()}));
+    res.cov("families", Value::Object(fam_cov));
+    res.cov("by_input_kind", Value::Object(kinds));
+    res.cov("by_reference_class", Value::Object(refc));
+    res.cov("schedules_encoded", total[S_ENCODES]);
+    res.cov("schedules_nontrivial_with_duplicates", total[S_NONTRIVIAL]);
+    res.cov("encodings_multi_line", total[S_MULTILINE]);
+    res.cov("encodings_exact_multiple_of_76_digits", total[S_EXACT76]);
+    res.cov("max_printed_lines", total[S_MAXLINES]);
+    res.cov("padding_only_truncations", total[S_PAD_ONLY]);
+    res.cov("padding_only_truncations_decoded_to_same_schedule", total[S_PAD_ONLY_SOME]);
+    res.cov("worker_deaths_inside_decoder", crashes);
+    res.cov("violating_cases", total[S_FINDINGS] + crashes);
+    res.cov("finding_counts", json!(key_counts));
+    res.cov("caps_hit", json!(caps));
+    res.cov("exhaustive", exhaustive);
+    res.cov("worker_processes", njobs as u64);
+    for s in samples {
+        res.sample(s);
+    }
+    res.assumptions.push("Task ids are usize on a 64-bit target; usize::MAX = 2^64-1 is the widest id.".into());
+    res.assumptions.push(
+        "'Cut short' is judged by needed bits (header varints complete, tag bit and id bits of every step present); a truncation \
+         that removes only tail padding may decode to the original schedule and is accepted as None or Some(original)."
+            .into(),
+    );
+    res.assumptions.push(
+        "Strictly demanded forms: as printed, line breaks removed, ASCII whitespace before/after. Interior spaces, CRLF, re-wrapping, \
+         upper case and Unicode spaces are only required not to crash and not to decode into a different schedule."
+            .into(),
+    );
+    res.assumptions.push(
+        "Strings the statement does not classify (width field 0 or > 64 with a task step, varints beyond 64 bits) are only required \
+         not to crash; well-formed non-canonical strings (trailing bytes, changed header digit) must give None or the reference reading."
+            .into(),
+    );
+    res.assumptions.push("Workers run with RLIMIT_AS = 2 GiB, so a pre-allocation of >= 2^27 steps fails deterministically.".into());
+
+    // findings: one key per failing site; shortest witness first
+    all_findings.sort_by(|a, b| (a.key.as_str(), a.input_len, a.what.as_str()).cmp(&(b.key.as_str(), b.input_len, b.what.as_str())));
+    let mut per_key: HashMap<String, usize> = HashMap::new();
+    for f in all_findings {
+        let n = per_key.entry(f.key.clone()).or_insert(0);
+        *n += 1;
+        if *n <= 5 {
+            let total_n = key_counts.get(&f.key).copied().unwrap_or(0);
+            let what = if *n == 1 { format!("{} [{} case(s) with this key in this run]", f.what, total_n.max(1)) } else { f.what };
+            res.finding(f.key, what, f.replay);
+        }
+    }
+    let _ = std::fs::remove_dir_all(&scratch);
+    vx::common::finish(&ctx, res)
+}
+
+// ---- replay -----------------------------------------------------------------------------------
+fn one_main() -> ! {
+    limit_address_space();
+    eval::install_quiet_hook();
+    let mut s = String::new();
+    let _ = std::io::stdin().read_to_string(&mut s);
+    let v: Value = serde_json::from_str(&s).unwrap_or(Value::Null);
+    let case = match Case::from_json(&v) {
+        Some(c) => c,
+        None => {
+            println!("replay: cannot parse the case");
+            std::process::exit(3)
+        }
+    };
+    if case.label == "encode" {
+        if let eval::Expect::Exactly(sch) = &case.expect {
+            println!("serialize_schedule({})", gen::sched_brief(sch));
+            let _ = std::io::stdout().flush();
+            match eval::encode(sch) {
+                Ok(p) => println!("  observed: {:?}", p),
+                Err(o) => println!("  observed: {}", o.describe()),
+            }
+        }
+        std::process::exit(0);
+    }
+    println!("input ({} chars): {:?}", case.input.chars().count(), case.input.chars().take(400).collect::<String>());
+    println!("input class: {} / {}", case.kind.name(), case.label);
+    println!("reference reading: {}", refdec::ref_decode(&case.input).describe());
+    match &case.expect {
+        eval::Expect::Exactly(s) => println!("demanded: Some({})", gen::sched_brief(s)),
+        eval::Expect::NoneOr(s) => println!("demanded: None or Some({}), no crash", gen::sched_brief(s)),
+        eval::Expect::ByRef => println!("demanded: by reference reading (invalid => None; valid => None or that schedule; unspecified => no crash)"),
+    }
+    let _ = std::io::stdout().flush();
+    let obs = observe(&case.input);
+    println!("observed: deserialize_schedule(input) = {}", obs.describe());
+    match judge(&case, &obs, true).violation {
+        Some((k, w)) => println!("verdict: VIOLATION key={} :: {}", k, w),
+        None => println!("verdict: property holds for this case"),
+    }
+    std::process::exit(0);
+}
+
+fn replay_main(path: &str) -> ! {
+    let doc: Value = match std::fs::read_to_string(path).ok().and_then(|s| serde_json::from_str(&s).ok()) {
+        Some(v) => v,
+        None => {
+            eprintln!("MACHINERY-ERROR: cannot read replay file {}", path);
+            std::process::exit(2)
+        }
+    };
+    let case = &doc["replay"]["case"];
+    println!("replaying C16 case key={} (family {}, item {}, case {})", doc["key"], doc["replay"]["family"], doc["replay"]["item"], doc["replay"]["sub"]);
+    let exe = std::env::current_exe().unwrap_or_else(|_| std::process::exit(2));
+    let child = Command::new(exe).arg("one").env("RUST_BACKTRACE", "0").stdin(Stdio::piped()).stdout(Stdio::piped()).stderr(Stdio::piped()).spawn();
+    let mut child = match child {
+        Ok(c) => c,
+        Err(e) => {
+            eprintln!("MACHINERY-ERROR: cannot spawn: {}", e);
+            std::process::exit(2)
+        }
+    };
+    {
+        let mut si = child.stdin.take().unwrap();
+        let _ = si.write_all(case.to_string().as_bytes());
+    }
+    let out = match child.wait_with_output() {
+        Ok(o) => o,
+        Err(e) => {
+            eprintln!("MACHINERY-ERROR: {}", e);
+            std::process::exit(2)
+        }
+    };
+    print!("{}", String::from_utf8_lossy(&out.stdout));
+    if !out.status.success() {
+        let err = String::from_utf8_lossy(&out.stderr);
+        println!(
+            "observed: the call took the process down ({}); stderr: {}",
+            match out.status.signal() {
+                Some(s) => format!("signal {}", s),
+                None => format!("exit code {:?}", out.status.code()),
+            },
+            err.lines().find(|l| l.contains("memory allocation of")).or(err.lines().next()).unwrap_or("")
+        );
+        println!("verdict: VIOLATION (crash inside the codec; address space limited to 2 GiB)");
+    }
+    std::process::exit(0);
+}
+
 fn main() {
-    eprintln!("MACHINERY-ERROR: not built yet");
-    std::process::exit(2);
+    let args: Vec<String> = std::env::args().skip(1).collect();
+    match args.first().map(|s| s.as_str()) {
+        Some("worker") => worker_main(&args[1..]),
+        Some("one") => one_main(),
+        Some("check") => {
+            let id = args.get(1).cloned().unwrap_or_default();
+            if id != "C16" {
+                eprintln!("MACHINERY-ERROR: vx-c16 implements C16 only (got '{}')", id);
+                std::process::exit(2);
+            }
+            match args.get(2).map(|s| s.as_str()) {
+                Some("--replay") => match args.get(3) {
+                    Some(p) => replay_main(p),
+                    None => {
+                        eprintln!("MACHINERY-ERROR: --replay needs a path");
+                        std::process::exit(2)
+                    }
+                },
+                Some("quick") => check_main(&id, Tier::Quick),
+                Some("thorough") => check_main(&id, Tier::Thorough),
+                other => {
+                    let t = other.map(|s| s.to_string()).or_else(|| std::env::var("VERIF_TIER").ok());
+                    match t.as_deref() {
+                        Some("thorough") => check_main(&id, Tier::Thorough),
+                        Some("quick") | None => check_main(&id, Tier::Quick),
+                        Some(x) => {
+                            eprintln!("MACHINERY-ERROR: unknown tier '{}'", x);
+                            std::process::exit(2)
+                        }
+                    }
+                }
+            }
+        }
+        _ => {
+            eprintln!("usage: vx-c16 check C16 quick|thorough|--replay <file>");
+            std::process::exit(2);
+        }
+    }
 }
